@@ -153,6 +153,8 @@ def case_term(i, p, r, o):
                 pieces = '[PPkg 1; PText %s]' % coq_str('NewImpl%d("val%d")' % (k, v["id"]))
             else:
                 pieces = '[%sPPkg 1; PText %s]' % ('PText "&"%string; ' if t % 2 else "", coq_str('%s{ID: "val%d"}' % (r.tn(k), v["id"])))
+            if v.get("paren"):
+                pieces = '[PText "("%string; ' + pieces[1:-1] + '; PText ")"%string]'
             vals.append("(mkVI %d %d %s)" % (v["id"], t, pieces))
     if o["generated"] and "readback" in o:
         lines, imports = observed_lines(o["readback"])
